@@ -26,7 +26,7 @@ func writeZip(dir, archive string) {
 }
 
 // H_heal. The signed build: files f (nf bytes, symbolic), sub/g (B+1 bytes), sub/deep/h (empty),
-// directory emptydir, symlink lnk -> f. Params: nf, damage:
+// directories emptydir and sub/hollow (empty), symlinks lnk -> f and sub/lk -> g. Params: nf, damage:
 //  0 none, 1 f content damaged (independent symbolic content of length na), 2 f deleted,
 //  3 everything missing (target absent), 4 sub replaced by a regular file, 5 sub replaced by a
 //  symlink to another directory holding valid files, 6 f replaced by a non-empty directory,
@@ -38,7 +38,7 @@ func H_heal() {
 	F := rt.Bytes("f", rt.Param("nf"))
 	G := rt.Bytes("g", B+1)
 	signed := &hlib.Build{Files: []hlib.File{{Path: "f", Data: F}, {Path: "sub/g", Data: G}, {Path: "sub/deep/h", Data: []byte{}}},
-		Dirs: []string{"emptydir"}, Links: []hlib.Link{{Path: "lnk", Dest: "f"}}}
+		Dirs: []string{"emptydir", "sub/hollow"}, Links: []hlib.Link{{Path: "lnk", Dest: "f"}, {Path: "sub/lk", Dest: "g"}}}
 	root := rt.TempDir()
 	signed.Write(root + "/s")
 	sig := hlib.SigOf(root + "/s")
